@@ -46,6 +46,42 @@ D = {
  "C16-m2": ("C16", "independent seeder", "failed lock upgrade no longer decrements the debug read lock count", "assertion-enabled build under concurrency: failed upgrade on a node that is later freed"),
  "C17-m1": ("C17", "independent seeder", "qsbr_ptr move assignment skipped when both wrap the same address", "two distinct wrappers on one address, one move-assigned from the other"),
  "C17-m2": ("C17", "independent seeder", "unregister_active_ptr erases every registration of the address", "assertion build, two live wrappers on one address, one goes away"),
+ "own-revert-prefix-snapshot": ("C16", "own (revert of fix 3860abe)", "try_get/try_insert/try_remove read the key prefix word twice (length and bytes separately)", "assertion-enabled build: a reader between the two loads while a collapse or prefix split rewrites the word in place"),
+ "R2-C01-m1": ("C01", "independent seeder, round 2", "key_prefix::prepend shifts the whole child word instead of its masked prefix bytes (stale bytes and the length byte shifted into the new prefix)", "inode_4 collapse into a child whose prefix word has non-zero bytes beyond its length"),
+ "R2-C01-m2": ("C01", "independent seeder, round 2", "inode_4 collapse skips the prefix merge when the collapsing node has an empty prefix (the key byte of the remaining child is dropped)", "collapse of an inode_4 with zero-length prefix into an inner child"),
+ "R2-C02-m1": ("C02", "independent seeder, round 2", "inode_256::gte_key_byte never looks at child 0xFF", "forward seek that must land on the child under byte 0xFF of an inode_256"),
+ "R2-C02-m2": ("C02", "independent seeder, round 2", "seek compares key and prefix as little-endian machine words instead of by the first differing byte", "bound diverging from a node prefix with >= 2 differing bytes whose word order disagrees with the byte order"),
+ "R2-C03-m1": ("C03", "independent seeder, round 2", "growth publishes the larger node after the parent's write lock is released", "insert that grows a full non-root inode, preempted between the parent's unlock and the slot store, while another writer shifts the parent's children"),
+ "R2-C03-m2": ("C03", "independent seeder, round 2", "remove's 'leaf holds another key' exit no longer validates the parent", "remove of a present key below a node whose prefix is cut in place by a concurrent prefix split; keys with runs of equal bytes so that the stale walk ends at an existing leaf"),
+ "R2-C04-m1": ("C04", "independent seeder, round 2", "last-in-epoch unregistration handles orphans in the mode the system is entering (frees current-interval orphans at once when going 2 -> 1 threads)", "3 threads, two leavers in order: reader holds a view, writer retires and leaves while not last, third leaves as last of the epoch"),
+ "R2-C04-m2": ("C04", "independent seeder, round 2", "register_thread during an epoch change returns at once instead of waiting for the new epoch", "thread start inside another thread's epoch change and its first quiescent state before the change is published: epoch advances twice"),
+ "R2-C04-m3": ("C04", "independent seeder, round 2 (extra; its author saw the repository's own concurrency test fail once in ~150 runs with it)", "inode_4 collapse takes the reclaim handle of the node before the last lock upgrade, so a restart retires a node that stays linked", "remover whose upgrade of the remaining child fails"),
+ "R2-C05-m1": ("C05", "independent seeder, round 2", "change_epoch computes the new state once, outside the CAS retry loop (stale thread count republished)", "a thread registers or leaves between the epoch changer's load and its CAS"),
+ "R2-C05-m2": ("C05", "independent seeder, round 2", "unregister_thread decides single-thread mode from a fresh load instead of the state it is committing", "a joiner registers between the two loads of a leaver that was alone"),
+ "R2-C06-m1": ("C06", "independent seeder, round 2", "unregister_thread's epoch-changing branch computes the new state once, outside the CAS retry loop", "another thread registers between the leaver's load and CAS: its registration is overwritten (thread count too low)"),
+ "R2-C06-m2": ("C06", "independent seeder, round 2", "the tail walk of the orphan-list append fallback removed (appends behind the head node)", "two threads leave or pause with previous-interval requests during one epoch change of a third, between its take and its install CAS"),
+ "R2-C07-m1": ("C07", "independent seeder, round 2", "try_read_lock recognises obsolete only on its first load, then waits only while write-locked", "reader arrives while a writer holds the lock and that writer finishes with unlock_and_obsolete"),
+ "R2-C07-m2": ("C07", "independent seeder, round 2", "try_read_unlock validates with 'current word <= recorded word'", "section opened on a lock with >= 1 completed write, overlapping writer ends with unlock_and_obsolete (word 1), final validation by try_read_unlock"),
+ "R2-C08-m1": ("C08", "independent seeder, round 2", "qsbr_per_thread members reordered so that registration precedes the allocating initialisers", "qsbr_thread start / qsbr_resume with a later allocation failing"),
+ "R2-C08-m2": ("C08", "independent seeder, round 2", "on_next_epoch_deallocate ages the thread's requests before the (only) allocation of the request", "first request after an epoch change made by another thread, with that allocation failing"),
+ "R2-C09-m1": ("C09", "independent seeder, round 2", "next() always steps after the re-seek, also when the current key has vanished", "forward scan whose current key is removed between delivery and the step"),
+ "R2-C09-m2": ("C09", "independent seeder, round 2", "prior() re-seeks forward and steps back", "reverse scan whose current key is removed between delivery and the step"),
+ "R2-C10-m1": ("C10", "independent seeder, round 2", "inode_48::delete_subtree scans only the first children_count slots", "inode_48 with a hole below a taken slot, then clear() or destruction"),
+ "R2-C10-m2": ("C10", "independent seeder, round 2", "growth counter bumped before the lock upgrades", "olc_db: growing insert whose upgrade fails"),
+ "R2-C11-m1": ("C11", "independent seeder, round 2", "text length narrowed to the 16-bit size type before the comparison with maxlen", "text of >= 65536 bytes"),
+ "R2-C11-m2": ("C11", "independent seeder, round 2", "ensure_capacity copies the old content only when the old buffer was heap-allocated (first growth out of the inline buffer loses the encoded bytes)", "key that outgrows the 256-byte inline buffer"),
+ "R2-C12-m1": ("C12", "independent seeder, round 2", "ensure_capacity frees the old buffer before copying from it", "second growth of an encoder buffer"),
+ "R2-C12-m2": ("C12", "independent seeder, round 2", "encode(uint8) binds the destination reference before ensure_available", "8-bit component starting exactly at a capacity boundary"),
+ "R2-C13-m1": ("C13", "independent seeder, round 2", "mutex_db::get looks up under one lock hold and pins the result under a second one", "get hit racing with a remove of the same key"),
+ "R2-C13-m2": ("C13", "independent seeder, round 2", "mutex_db::empty() without the mutex", "empty() concurrent with a writer"),
+ "R2-C14-m1": ("C14", "independent seeder, round 2", "inode_4 collapse read-locks the remaining child only after node and leaf were made obsolete", "second writer write-locks the remaining child between the remover's load of its lock word and its CAS: obsolete node stays linked"),
+ "R2-C14-m2": ("C14", "independent seeder, round 2", "growth makes the full inode obsolete before allocating the larger one", "allocation failure at the larger-inode allocation of a growing insert: obsolete node stays linked, every later operation through it spins"),
+ "R2-C15-m1": ("C15", "independent seeder, round 2", "text length narrowed to 16 bits before min(len, maxlen)", "text of >= 65536 bytes"),
+ "R2-C15-m2": ("C15", "independent seeder, round 2", "NaN test moved under the 'sign bit clear' branch", "NaN with the sign bit set"),
+ "R2-C16-m1": ("C16", "independent seeder, round 2", "olc iterator right-most descent validates the parent with check() instead of try_read_unlock() (debug read-lock count leaks)", "assertion-enabled build: reverse traversal over >= 2 inner levels, then a removal that frees an upper node"),
+ "R2-C16-m2": ("C16", "independent seeder, round 2", "SSE4.1-only: inode_48 free-slot search starts at slot 16", "-msse4.1 build, inode_48 with slots 16..47 full and a hole below 16, then insert"),
+ "R2-C17-m1": ("C17", "independent seeder, round 2", "unregister_active_ptr erases every registration of the address", "assertion build, two live wrappers on one address"),
+ "R2-C17-m2": ("C17", "independent seeder, round 2", "qsbr_ptr_span copy takes size_bytes() as element count", "span of elements wider than one byte"),
  "C14-m1": ("C14", "independent seeder", "inode_4 collapse read-locks and upgrades the remaining child only after node and leaf were made obsolete; a failed upgrade leaves an obsolete node linked", "remover and a second writer that write-locks the remaining child between the remover's load of its lock word and the remover's CAS (two preemptions): every later operation through that node restarts forever"),
  "C14-m2": ("C14", "independent seeder", "removed leaf made obsolete right after its upgrade, before the remaining child's upgrade", "one preemption of the remover between opening and upgrading the remaining child's section while another thread writes inside it: obsolete leaf stays linked"),
 }
